@@ -132,7 +132,10 @@ class C16(core.Check):
         "observed, its vertices moved along the curve, observed again; seq: hairpin curves (analytic and spline), closest-parameter "
         "queries alternating between the legs on one curve object, each compared with a fresh object and a 2001-point scan, and an "
         "edge around the bend; linear curves also with equalize=False; analytic curves also with bounds not starting at 0 and "
-        "parameters exactly 0 / exactly the bounds / equal; bad: parameters outside the bounds. Non-trivial = every "
+        "parameters exactly 0 / exactly the bounds / equal; qtq: one curve object (circle, arc of a circle, line, linear, spline, discrete) "
+        "queried, then translated / rotated (also about its own axis) / scaled / mirrored in place, on a copy of the queried curve or "
+        "inside a copied operation that carries it on an edge, then queried again near its new position; "
+        "bad: parameters outside the bounds. Non-trivial = every "
         "case; distinct = different input."
     )
     assumptions = [
@@ -431,7 +434,7 @@ class C16(core.Check):
         # round 6b — histories query -> transform -> query on ONE curve object, every curve class, every kind of transform, in place,
         # on a copy of the queried curve, or as part of a copied operation that carries the curve on an edge
         classes = ["circle", "circle", "line", "linear", "spline", "discrete"]
-        for i in range(max(18, n)):
+        for i in range(max(18, n if tier == "quick" else n // 4)):
             which = classes[i % len(classes)]
             c = {"kind": "qtq", "curve": which, "via": ["inplace", "copy", "opcopy"][(i // len(classes)) % 3]}
             if which == "circle":
